@@ -525,6 +525,9 @@ Step(m, a) ==
       [] a.act = "GetSession"   -> GetSession(m, a.sid, a.ns)
       [] a.act = "SaveSession"  -> SaveSession(m, a.sid, a.ns, a.val)
       [] a.act = "SessionBlock" -> SessionBlock(m, a.sid, a.ns, a.val)
+      \* a session block opened inside another one for the same client (a helper called by a
+      \* handler): both see ONE session, the outcome is that of a single block
+      [] a.act = "SessionNested" -> SessionBlock(m, a.sid, a.ns, a.val)
       [] a.act = "GetEnviron"   -> GetEnviron(m, a.sid, a.ns)
       [] a.act = "Arm"          -> [m EXCEPT !.s.raiseDisc =
                                         IF a.ns \in @ THEN @ \ {a.ns} ELSE @ \cup {a.ns}]
@@ -609,7 +612,7 @@ GhostStep(s, g, a, o) ==
             IF GConnOf(g, a.sid, a.ns) # {} THEN [g EXCEPT !.member = @ \cup {<<a.ns, a.room, a.sid>>}] ELSE g
       [] a.act = "LeaveRoom"    -> [g EXCEPT !.member = @ \ {<<a.ns, a.room, a.sid>>}]
       [] a.act = "CloseRoom"    -> [g EXCEPT !.member = {x \in @ : ~(x[1] = a.ns /\ x[2] = a.room)}]
-      [] a.act \in {"SaveSession", "SessionBlock"} ->
+      [] a.act \in {"SaveSession", "SessionBlock", "SessionNested"} ->
             IF GConnOf(g, a.sid, a.ns) # {} THEN [g EXCEPT !.want = Put(@, <<a.sid, a.ns>>, a.val)] ELSE g
       [] a.act = "Emit" /\ a.cb # "" ->      \* observation: ids the server put on the wire
             [g EXCEPT !.issued = @ \cup
@@ -851,7 +854,7 @@ C06_IssuedMatchesCore ==        \* the declared outstanding set is what the mana
 ----------------------------------------------------------------------------
 (* C16 - user sessions                                                     *)
 C16_SessionIsolation ==
-    \A a \in Acts(st) : a.act \in {"GetSession", "SessionBlock"} =>
+    \A a \in Acts(st) : a.act \in {"GetSession", "SessionBlock", "SessionNested"} =>
         LET o == Do(st, a)
         IN  gh.dev = {} =>
             IF GConnOf(gh, a.sid, a.ns) # {}
